@@ -25,7 +25,10 @@ NOTE = ("Trusted: the parser of the listing format in this check (regular expres
 RULE = ("(quick tier: programs whose pyc exceeds 3000 bytes get classic, bytes and extended only - xdis's iterator is "
         "quadratic; thorough runs all six on everything) case = one bytecode file (compiled program of grammar G for one reference version, or one corpus file) x six "
         "formats; distinct = distinct file bytes")
-ASSUMPTIONS = ["the instruction stream the listing must be faithful to is xdis's own Bytecode(co, opc, dup_lines=True)"]
+ASSUMPTIONS = ["the instruction stream the listing must be faithful to is xdis's own Bytecode(co, opc, dup_lines=True)",
+               "line marks are judged independently of that stream: every line start reported by the producing CPython "
+               "(M-lines for the corpus) must be marked, and a further mark must be a permitted dup_lines repeat (M-dup: the "
+               "start of a compiler-recorded lnotab entry, never a position reached through a (255, 0) continuation entry)"]
 FORMATS = ["classic", "bytes", "extended", "extended-bytes", "xasm", "header"]
 LINE = re.compile(r"^\s*(?:(\d+):)?\s+(-->)?\s*(>>)?\s*(\d+) (?:\|([0-9a-f ]+)\| ?)?([A-Z_][A-Za-z0-9_+]*)[ ]*(.*)$")
 
@@ -45,7 +48,8 @@ def cases(plan, tier, shard, nshards, host):
             if idx >= 0:
                 if tier == "quick" and len(rec["pyc"]) > 4000 and not rec["id"].endswith("@module"):
                     continue  # long bodies: one scope in quick (xdis's iterator is quadratic), all four in thorough
-                yield {"kind": "prog", "ver": rec["ver"], "id": rec["id"], "pyc": rec["pyc"]}
+                yield {"kind": "prog", "ver": rec["ver"], "id": rec["id"], "pyc": rec["pyc"],
+                       "linestarts": [c["linestarts"] for c in rec["codes"]]}
     n = 0
     for f in sorted(glob.glob(os.path.join(common.REPO, "test", "bytecode_*", "*.pyc"))):
         if os.path.getsize(f) > (30000 if tier == "quick" else 200000):
@@ -144,14 +148,61 @@ def expected_stream(co, opc, classic):
 _STREAM_CACHE = {}
 
 
-def check_listing(ctx, vtag, fmt, text, co, opc, where):
+def m_dup_positions(lnotab, firstlineno, signed):
+    """M-dup: what the dup_lines extension (xdis's listing default) may mark beyond the real line starts in an lnotab
+    table: the start of a compiler-recorded entry whose line equals the previous one (a second statement on one line).
+    A position reached through a (255, 0) entry is the middle of one over-long step, not the start of an entry.
+    -> {offset: line} of permitted extra marks"""
+    bs = bytearray(lnotab if isinstance(lnotab, (bytes, bytearray)) else lnotab.encode("latin-1"))
+    pos, line = 0, firstlineno
+    ok = {0: True}
+    line_at = {0: line}
+    for k in range(0, len(bs) - 1, 2):
+        b, d = bs[k], bs[k + 1]
+        if signed and d >= 0x80:
+            d -= 0x100
+        if b:
+            pos += b
+            ok[pos] = not (b == 255 and d == 0)
+        line += d
+        line_at[pos] = line
+    return dict((o, line_at[o]) for o in ok if ok[o])
+
+
+def check_line_marks(ctx, vtag, fmt, marks, code, required, vt, where):
+    """line number iff it starts a line: every real line start (the producing CPython's dis.findlinestarts, or M-lines
+    for versions without an interpreter) is marked with its line, and any further mark is a permitted dup_lines extra"""
+    marks = dict(marks)
+    for off, line in required:
+        if marks.get(off) != line:
+            ctx.violation("%s:%s:line-start-not-marked" % (vtag, fmt), "offset %d starts line %r but the listing shows %r (%s)" % (off, line, marks.get(off), where))
+            return
+    req = dict((o, l) for o, l in required)
+    extras = dict((o, l) for o, l in marks.items() if o not in req)
+    if not extras:
+        return
+    allowed = {}
+    if vt < (3, 10) and hasattr(code, "co_lnotab") and not isinstance(code.co_lnotab, dict):
+        allowed = m_dup_positions(code.co_lnotab, code.co_firstlineno, vt >= (3, 6))
+    for off, line in sorted(extras.items()):
+        if allowed.get(off) != line:
+            ctx.violation("%s:%s:line-mark-not-a-line-start" % (vtag, fmt), "offset %d carries line %r but starts no line (line starts %s, permitted repeats %s) (%s)"
+                          % (off, line, [x for x in required if abs(x[0] - off) < 600][:4], sorted(allowed.items())[:6], where))
+            return
+    ctx.count("dup_line_marks_permitted", len(extras))
+
+
+def check_listing(ctx, vtag, fmt, text, co, opc, where, refstarts=None):
     key = id(co)
     if _STREAM_CACHE.get("key") != key:
         _STREAM_CACHE.clear()
         _STREAM_CACHE["key"] = key
         _STREAM_CACHE["keep"] = co
-        _STREAM_CACHE["all"] = [i for s in expected_stream(co, opc, classic=False) for i in s]
+        segs = expected_stream(co, opc, classic=False)
+        _STREAM_CACHE["all"] = [i for s in segs for i in s]
+        _STREAM_CACHE["seg_of"] = [k for k, s in enumerate(segs) for i in s]
     flat = [i for i in _STREAM_CACHE["all"] if not (fmt == "classic" and i.opname == "CACHE")]
+    seg_of = [k for k, i in zip(_STREAM_CACHE["seg_of"], _STREAM_CACHE["all"]) if not (fmt == "classic" and i.opname == "CACHE")]
     got = []
     in_exc = False
     for ln in text.splitlines():
@@ -199,6 +250,53 @@ def check_listing(ctx, vtag, fmt, text, co, opc, where):
             ctx.violation("%s:%s:operand-on-noarg:%s" % (vtag, fmt, i.opname), "text %r after %s at %d (%s)" % (g[2][:40], i.opname, i.offset, where))
             return
     ctx.count("instruction_lines_checked", len(flat))
+    # independent of xdis's own starts_line: the marks against the real line starts
+    vt = tuple(opc.version_tuple[:2])
+    if vt >= (2, 3):
+        from collections import deque
+
+        from xdis.codetype.base import iscode
+
+        order = []
+        q = deque([co])
+        while q:
+            c = q.popleft()
+            order.append(c)
+            for k in c.co_consts:
+                if iscode(k):
+                    q.append(k)
+        per = {}
+        offsets = {}
+        for g, k in zip(got, seg_of):
+            offsets.setdefault(k, set()).add(g[0])
+            if g[4] is not None:
+                per.setdefault(k, []).append((g[0], g[4]))
+        for k, c in enumerate(order):
+            req = required_starts(c, vt, refstarts)
+            if req is None:
+                ctx.count("line_marks_without_reference")
+                continue
+            # 3.6/3.7 tables may carry an entry at the very end of the code (eliminated dead code): no instruction, no mark;
+            # 3.13's findlinestarts also reports where the line becomes None
+            req = [(o, l) for (o, l) in req if o in offsets.get(k, ()) and l is not None]
+            ctx.count("line_mark_tables_checked")
+            check_line_marks(ctx, vtag, fmt, per.get(k, []), c, req, vt, "%s/%s" % (where, c.co_name))
+
+
+def required_starts(c, vt, refstarts):
+    """real line starts of one code object: from the producing interpreter when there is one (keyed by identity of the
+    xdis code object, filled in run_case), else M-lines (gen/mdis.py; conformance with the interpreters is C05's)"""
+    from gen import mdis
+
+    if refstarts is not None:
+        r = refstarts.get(id(c))
+        return None if r is None else [tuple(x) for x in r]
+    if vt >= (3, 10) or isinstance(getattr(c, "co_lnotab", None), dict) or not hasattr(c, "co_lnotab"):
+        return None
+    tab = c.co_lnotab
+    if isinstance(tab, str):
+        tab = tab.encode("latin-1")
+    return mdis.mlines_lnotab(tab, c.co_firstlineno, len(c.co_code), vt >= (3, 6), vt in ((3, 8), (3, 9)))
 
 
 def run_case(case, ctx):
@@ -279,7 +377,13 @@ def run_case(case, ctx):
         (_, co, version_tuple, ts, magic_int, is_pypy, size, sip) = res
         try:
             opc = get_opcode(version_tuple, is_pypy)
-            check_listing(ctx, vtag, fmt, text, co, opc, where)
+            refstarts = None
+            if case["kind"] == "prog":
+                from vlib.xcanon import walk_xcodes
+
+                xs = walk_xcodes(co)
+                refstarts = dict((id(x), ls) for x, ls in zip(xs, case["linestarts"])) if len(xs) == len(case["linestarts"]) else {}
+            check_listing(ctx, vtag, fmt, text, co, opc, where, refstarts)
         except Exception as e:
             ctx.violation("%s:%s:stream-raises:%s" % (vtag, fmt, type(e).__name__), "%r (%s)" % (e, where))
     if "header" in listings:
